@@ -105,6 +105,9 @@ def main(argv=None):
         rec.cases += 1
     rec.case = None
 
+    if wl_gen is not None:
+        for k, v in getattr(wl_gen, "HIST_EVENTS", {}).items():
+            rec.events[k] += v
     out = rec.dump()
     out["attached"] = attached
     out["anchors"] = anchors.stop(anchor_mon)
